@@ -2,7 +2,7 @@
    (Model/Wrappers.v): status of a consistent request, degree-class sums,
    row 0 of the returned series, acceptance, structural conservation. *)
 From EoNV Require Import Prelude Graph Aux Vec IC Wrappers VecP.
-From Coq Require Import Lqa Setoid Morphisms.
+From Coq Require Import Lqa Setoid Morphisms Qpower.
 
 (* ---------------- sums over lists ---------------- *)
 Lemma sumQ_app a b : sumQ (a ++ b) == sumQ a + sumQ b.
@@ -448,3 +448,342 @@ Lemma accepts_SIR_hmf_default_refuted :
   exists g rq, wf_ugraph g = true /\ wf_req g true rq = true /\
                forall sv, SIR_homogeneous_meanfield_from_graph g rq sv = Err TypeErr.
 Proof. exists path3, (mkReq None None None). repeat split. Qed.
+
+(* ---------------- slices of X0 at time 0 ---------------- *)
+Lemma slice0_app a b n : length a = n -> slice 0 n (a ++ b) = a.
+Proof. intros <-. unfold slice. rewrite Nat.sub_0_r. cbn [skipn]. rewrite firstn_app, Nat.sub_diag, firstn_all. cbn. apply app_nil_r. Qed.
+Lemma req_eta rq : rq_R rq = None -> mkReq (rq_I rq) None (rq_rho rq) = rq.
+Proof. destruct rq; cbn; intros ->; reflexivity. Qed.
+
+Ltac look := cbn [lookup app sname_eqb]; reflexivity.
+Ltac lens := repeat (rewrite ?vsub_length, ?vmul_length, ?vadd_length, ?spow_arange_length, ?smul_length,
+                             ?req_Sk_length, ?req_Ik_length, ?req_Rk_length, ?app_length); cbn [length]; lia.
+
+(* heterogeneous mean field, SIS: S, I and (full data) the degree-class series Sk, Ik *)
+Lemma row0_SIS_hetmf g rq full sv :
+  wf_ugraph g = true -> wf_req g false rq = true -> solver_ok sv ->
+  exists out S I, SIS_heterogeneous_meanfield_from_graph g rq full sv = Ok out /\
+    lookup nS out = Some (Sc S) /\ lookup nI out = Some (Sc I) /\
+    S 0%nat == reqS_n g rq /\ I 0%nat == reqI_n g rq /\
+    (full = true -> exists Sk Ik, lookup nSk out = Some (Ve Sk) /\ lookup nIk out = Some (Ve Ik) /\
+                                  Sk 0%nat = req_Sk g rq /\ Ik 0%nat = req_Ik g rq).
+Proof.
+  intros WG W OK. pose proof (wf_req_noR g rq W) as NR.
+  unfold SIS_heterogeneous_meanfield_from_graph.
+  assert (NB : (isSome (rq_rho rq) && isSome (rq_I rq))%bool = false).
+  { destruct (rq_I rq) eqn:E, (rq_rho rq) eqn:Er; try reflexivity. exfalso; eapply wf_req_not_both; eauto. }
+  rewrite NB, (req_eta rq NR), (get_Nk_ok g false rq WG W). cbn [rbind nk_Sk nk_Ik].
+  unfold SIS_heterogeneous_meanfield. rewrite req_Sk_length, req_Ik_length, Nat.eqb_refl. cbn [negb].
+  do 3 eexists. split; [reflexivity|]. split; [look|]. split; [look|].
+  unfold vsumt, slc, sfrom. cbv beta. rewrite !OK.
+  rewrite slice0_app by apply req_Sk_length.
+  replace (slice_from (S (gmaxdeg g)) (req_Sk g rq ++ req_Ik g rq)) with (req_Ik g rq)
+    by (rewrite <- (req_Sk_length g rq); symmetry; apply slice_from_app).
+  split; [apply (vsum_req_Sk g false rq WG W)|]. split; [apply (vsum_req_Ik g false rq WG W)|].
+  intros ->. do 2 eexists. split; [look|]. split; [look|]. cbv beta. rewrite !OK.
+  rewrite slice0_app by apply req_Sk_length.
+  split; [reflexivity|]. rewrite <- (req_Sk_length g rq). apply slice_from_app.
+Qed.
+
+(* heterogeneous mean field, SIR: S, I, R at tmin *)
+Lemma spow_arange_1 n : veq (spow_arange 1 n) (map (fun _ => 1) (seq 0 n)).
+Proof.
+  unfold spow_arange. generalize 0%nat. induction n as [|n IH]; intros a; cbn [seq map]; constructor; [|apply IH].
+  unfold qpow. apply Qpower_1.
+Qed.
+Lemma vmul_ones a n : length a = n -> veq (vmul a (map (fun _ => 1) (seq 0 n))) a.
+Proof.
+  revert n. generalize 0%nat. induction a as [|x a IH]; intros s n H; destruct n; cbn in *; try discriminate; constructor.
+  - ring.
+  - apply IH. lia.
+Qed.
+Lemma vmul_veq a b b' : veq b b' -> veq (vmul a b) (vmul a b').
+Proof.
+  intros H. revert a. induction H as [|y y' b b' Hy Hb IH]; intros [|x a]; cbn; constructor; [rewrite Hy; reflexivity|apply IH].
+Qed.
+
+Lemma row0_SIR_hetmf g rq full sv :
+  wf_ugraph g = true -> wf_req g true rq = true -> solver_ok sv ->
+  exists S I R, SIR_heterogeneous_meanfield_from_graph g rq full sv = Ok [(nS, Sc S); (nI, Sc I); (nR, Sc R)] /\
+    S 0%nat == reqS_n g rq /\ I 0%nat == reqI_n g rq /\ R 0%nat == reqR_n g rq.
+Proof.
+  intros WG W OK. unfold SIR_heterogeneous_meanfield_from_graph.
+  rewrite (get_Nk_ok g true rq WG W). cbn [rbind nk_Sk nk_Ik nk_Rk].
+  unfold SIR_heterogeneous_meanfield. rewrite req_Sk_length, req_Ik_length, req_Rk_length, Nat.eqb_refl. cbn [negb orb].
+  do 3 eexists. split; [reflexivity|].
+  unfold vsumt, sfrom, comp, vnth. cbv beta. rewrite !OK. cbn [nth slice_from skipn].
+  assert (HS : veq (vmul (req_Sk g rq) (spow_arange 1 (length (req_Rk g rq)))) (req_Sk g rq)).
+  { rewrite req_Rk_length. etransitivity; [apply vmul_veq, spow_arange_1|]. apply vmul_ones, req_Sk_length. }
+  pose proof (vsum_req_Sk g true rq WG W) as ES. pose proof (vsum_req_Ik g true rq WG W) as EI.
+  pose proof (vsum_req_Rk g true rq WG W) as ER.
+  split; [rewrite (vsum_veq _ _ HS); exact ES|]. split; [|exact ER].
+  rewrite !vsum_vsub by lens. rewrite !vsum_vadd by lens. rewrite (vsum_veq _ _ HS), ES, EI, ER.
+  unfold reqS_n, reqI_n, reqR_n. destruct (rq_I rq); ring.
+Qed.
+
+(* ... but return_full_data=True does not give the documented times, Sk, Ik, Rk *)
+Lemma full_SIR_hetmf_refuted :
+  exists g rq, wf_ugraph g = true /\ wf_req g true rq = true /\
+    exists out, SIR_heterogeneous_meanfield_from_graph g rq true const_solver = Ok out /\ lookup nSk out = None.
+Proof.
+  exists path3, (mkReq (Some [0%N]) None None). split; [reflexivity|]. split; [reflexivity|].
+  eexists. split; [reflexivity|]. reflexivity.
+Qed.
+
+(* ---------------- pair counts of a request ---------------- *)
+Lemma esum_ext g f h : (forall u v, f u v == h u v) -> esum g f == esum g h.
+Proof. intros H. unfold esum. apply sumQ_map_ext. intros e _. apply H. Qed.
+
+Lemma cet_ext g st st' : (forall u, st u = st' u) -> count_edge_types_st g st = count_edge_types_st g st'.
+Proof.
+  intros H. unfold count_edge_types_st.
+  f_equal; [f_equal|]; unfold esum; f_equal; apply map_ext; intros e; unfold isS, isI; rewrite !H; reflexivity.
+Qed.
+
+(* (SS, SI, II) of the request: explicit sets - counted over the edges of G (2 per S-S edge, 1 per S-I edge,
+   2 per I-I edge); rho - (1-rho)^2, (1-rho)rho, rho^2 times the sum of the degrees *)
+Definition req_pairs (g : graph) (rq : icreq) : Q * Q * Q :=
+  match rq_I rq with
+  | Some _ => count_edge_types_st g (req_status rq)
+  | None => let r := rho_or_default g (rq_rho rq) in
+            ((1 - r) * (1 - r) * degsum g, (1 - r) * r * degsum g, r * r * degsum g)
+  end.
+Definition pSS (x : Q * Q * Q) := fst (fst x).
+Definition pSI (x : Q * Q * Q) := snd (fst x).
+Definition pII (x : Q * Q * Q) := snd x.
+
+Lemma count_edge_types_ok g sir rq I0 :
+  wf_req g sir rq = true -> rq_I rq = Some I0 ->
+  count_edge_types g I0 (rq_R rq) = Ok (count_edge_types_st g (req_status rq)).
+Proof.
+  intros W E. unfold count_edge_types. destruct (init_status_ok g sir rq I0 W E) as [st [-> Hst]]. cbn [rbind].
+  f_equal. apply cet_ext. exact Hst.
+Qed.
+
+Lemma get_Nk_default g sir :
+  get_Nk_and_IC g (mkReq None None (Some (1 / gN g))) sir = get_Nk_and_IC g (mkReq None None None) sir.
+Proof. unfold get_Nk_and_IC. cbn [rq_rho rq_I rq_R isSome andb]. rewrite !andb_false_r. destruct (gnodes g); reflexivity. Qed.
+
+Lemma req_default_eta rq : rq_I rq = None -> rq_R rq = None -> rq_rho rq = None -> mkReq None None None = rq.
+Proof. destruct rq; cbn; intros -> -> ->; reflexivity. Qed.
+
+Lemma weighted_Nk_sum g c :
+  vsum (map (fun k => vnth k (Nk_of g) * Qnat k * c) (classes g)) == c * degsum g.
+Proof.
+  unfold vsum. rewrite <- Nk_degsum, <- sumQ_map_scal. apply sumQ_map_ext. intros; ring.
+Qed.
+
+Lemma weighted_Nk_sum2 g c1 c2 :
+  vsum (map (fun k => vnth k (Nk_of g) * Qnat k * c1 * c2) (classes g)) == c1 * c2 * degsum g.
+Proof.
+  rewrite <- weighted_Nk_sum. unfold vsum. apply sumQ_map_ext. intros; ring.
+Qed.
+
+Lemma weighted_Nk_sum2' g c1 c2 :
+  vsum (map (fun k => nth k (Nk_of g) 0 * Qnat k * c1 * c2) (classes g)) == c1 * c2 * degsum g.
+Proof. exact (weighted_Nk_sum2 g c1 c2). Qed.
+
+(* compact pairwise, SIS (and SIS compact effective degree, which is the same function) *)
+Lemma row0_SIS_cp g rq full sv :
+  wf_ugraph g = true -> wf_req g false rq = true -> solver_ok sv ->
+  exists out S I, SIS_compact_pairwise_from_graph g rq full sv = Ok out /\
+    lookup nS out = Some (Sc S) /\ lookup nI out = Some (Sc I) /\
+    S 0%nat == reqS_n g rq /\ I 0%nat == reqI_n g rq /\
+    (full = true -> exists Sk Ik SI SS II,
+       lookup nSk out = Some (Ve Sk) /\ lookup nIk out = Some (Ve Ik) /\ lookup nSI out = Some (Sc SI) /\
+       lookup nSS out = Some (Sc SS) /\ lookup nII out = Some (Sc II) /\
+       Sk 0%nat = req_Sk g rq /\ veq (Ik 0%nat) (req_Ik g rq) /\
+       SI 0%nat == pSI (req_pairs g rq) /\ SS 0%nat == pSS (req_pairs g rq) /\ II 0%nat == pII (req_pairs g rq)).
+Proof.
+  intros WG W OK. pose proof (wf_req_noR g rq W) as NR.
+  unfold SIS_compact_pairwise_from_graph.
+  assert (NB : (isSome (rq_rho rq) && isSome (rq_I rq))%bool = false).
+  { destruct (rq_I rq) eqn:E, (rq_rho rq) eqn:Er; try reflexivity. exfalso; eapply wf_req_not_both; eauto. }
+  rewrite NB.
+  assert (HN : get_Nk_and_IC g (mkReq (rq_I rq) None match rq_rho rq with Some _ => rq_rho rq | None => match rq_I rq with Some _ => None | None => Some (1 / gN g) end end) false
+               = Ok (mkNkic (Nk_of g) (req_Sk g rq) (req_Ik g rq) (req_Rk g rq))).
+  { destruct (rq_rho rq) as [r|] eqn:Er.
+    - rewrite <- Er, (req_eta rq NR). apply (get_Nk_ok g false rq WG W).
+    - destruct (rq_I rq) as [I0|] eqn:E.
+      + rewrite <- Er, <- E, (req_eta rq NR). apply (get_Nk_ok g false rq WG W).
+      + rewrite get_Nk_default, (req_default_eta rq E NR Er). apply (get_Nk_ok g false rq WG W). }
+  assert (HV : veq (vsub (vadd (req_Sk g rq) (req_Ik g rq)) (req_Sk g rq)) (req_Ik g rq)).
+  { apply veq_of_nth; [lens|]. intros i Hi.
+    rewrite nth_vsub, nth_vadd by (revert Hi; lens). ring. }
+  destruct (rq_rho rq) as [r|] eqn:Er; [destruct (rq_I rq) as [I0|] eqn:E; [exfalso; eapply wf_req_not_both; eauto|]|destruct (rq_I rq) as [I0|] eqn:E].
+  all: rewrite HN; cbn [rbind nk_Sk nk_Ik nk_Nk].
+  2: rewrite <- NR, (count_edge_types_ok g false rq I0 W E); cbn [rbind]; destruct (count_edge_types_st g (req_status rq)) as [[ss si] ii] eqn:EC.
+  all: unfold SIS_compact_pairwise; do 3 eexists; (split; [reflexivity|]); (split; [look|]); (split; [look|]);
+    unfold vsumt, dlast, tlast, vnth; cbv beta; rewrite !OK; rewrite ?drop_last_app, ?take_last_app by reflexivity; cbn [nth].
+  all: split; [apply (vsum_req_Sk g false rq WG W)|]; split; [rewrite (vsum_veq _ _ HV); apply (vsum_req_Ik g false rq WG W)|].
+  all: intros ->; do 5 eexists; repeat (split; [look|]); cbv beta; rewrite !OK; rewrite ?drop_last_app, ?take_last_app by reflexivity; cbn [nth];
+    (split; [reflexivity|]); (split; [apply HV|]); unfold req_pairs, pSS, pSI, pII; rewrite ?E, ?Er, ?EC; cbn [fst snd rho_or_default].
+  - rewrite !weighted_Nk_sum2'. repeat split; ring.
+  - repeat split; ring.
+  - rewrite !weighted_Nk_sum2'. repeat split; ring.
+Qed.
+
+Lemma req_eta_full rq : mkReq (rq_I rq) (rq_R rq) (rq_rho rq) = rq.
+Proof. destruct rq; reflexivity. Qed.
+
+Lemma get_Nk_sir_default g rq :
+  wf_ugraph g = true -> wf_req g true rq = true ->
+  get_Nk_and_IC g (mkReq (rq_I rq) (rq_R rq) match rq_rho rq with Some _ => rq_rho rq | None => match rq_I rq with Some _ => None | None => Some (1 / gN g) end end) true
+  = Ok (mkNkic (Nk_of g) (req_Sk g rq) (req_Ik g rq) (req_Rk g rq)).
+Proof.
+  intros WG W. destruct (rq_rho rq) as [r|] eqn:Er.
+  - rewrite <- Er, req_eta_full. apply (get_Nk_ok g true rq WG W).
+  - destruct (rq_I rq) as [I0|] eqn:E.
+    + rewrite <- Er, <- E, req_eta_full. apply (get_Nk_ok g true rq WG W).
+    + pose proof (wf_req_rho g true rq W E) as NR. rewrite NR, get_Nk_default, (req_default_eta rq E NR Er).
+      apply (get_Nk_ok g true rq WG W).
+Qed.
+
+(* compact pairwise, SIR: S, I, R at tmin *)
+Lemma row0_SIR_cp g rq sv :
+  wf_ugraph g = true -> wf_req g true rq = true -> solver_ok sv ->
+  exists S I R, SIR_compact_pairwise_from_graph g rq false sv = Ok [(nS, Sc S); (nI, Sc I); (nR, Sc R)] /\
+    S 0%nat == reqS_n g rq /\ I 0%nat == reqI_n g rq /\ R 0%nat == reqR_n g rq.
+Proof.
+  intros WG W OK. unfold SIR_compact_pairwise_from_graph.
+  assert (NB : (isSome (rq_rho rq) && isSome (rq_I rq))%bool = false).
+  { destruct (rq_I rq) eqn:E, (rq_rho rq) eqn:Er; try reflexivity. exfalso; eapply wf_req_not_both; eauto. }
+  rewrite NB. pose proof (get_Nk_sir_default g rq WG W) as HN.
+  pose proof (vsum_req_Sk g true rq WG W) as ES. pose proof (vsum_req_Ik g true rq WG W) as EI.
+  pose proof (vsum_req_Rk g true rq WG W) as ER.
+  destruct (rq_rho rq) as [r|] eqn:Er; [destruct (rq_I rq) as [I0|] eqn:E; [exfalso; eapply wf_req_not_both; eauto|]|destruct (rq_I rq) as [I0|] eqn:E].
+  all: rewrite HN; cbn [rbind nk_Sk nk_Ik nk_Nk nk_Rk].
+  2: rewrite (count_edge_types_ok g true rq I0 W E); cbn [rbind]; destruct (count_edge_types_st g (req_status rq)) as [[ss si] ii] eqn:EC.
+  all: unfold SIR_compact_pairwise; do 3 eexists; (split; [reflexivity|]);
+    unfold vsumt, dlast, tlast, vnth; cbv beta; rewrite !OK; rewrite ?drop_last_app, ?take_last_app by reflexivity; cbn [nth].
+  all: rewrite ES, EI, ER; repeat split; try reflexivity; ring.
+Qed.
+
+(* ... but with return_full_data the SS and SI series are exchanged *)
+Lemma row0_SIR_cp_full_refuted :
+  exists g rq, wf_ugraph g = true /\ wf_req g true rq = true /\
+    exists out SS SI, SIR_compact_pairwise_from_graph g rq true const_solver = Ok out /\
+      lookup nSS out = Some (Sc SS) /\ lookup nSI out = Some (Sc SI) /\
+      ~ SS 0%nat == pSS (req_pairs g rq) /\ SS 0%nat == pSI (req_pairs g rq) /\ SI 0%nat == pSS (req_pairs g rq).
+Proof.
+  exists path3, (mkReq (Some [0%N]) None None). split; [reflexivity|]. split; [reflexivity|].
+  do 3 eexists. split; [vm_compute; reflexivity|]. split; [vm_compute; reflexivity|]. split; [vm_compute; reflexivity|].
+  split; [|split]; vm_compute; [intros H; discriminate H|reflexivity|reflexivity].
+Qed.
+
+(* super compact pairwise, SIS: S and I at tmin *)
+Lemma row0_SIS_scp g rq full sv :
+  wf_ugraph g = true -> wf_req g false rq = true -> solver_ok sv ->
+  exists out S I, SIS_super_compact_pairwise_from_graph g rq full sv = Ok out /\
+    lookup nS out = Some (Sc S) /\ lookup nI out = Some (Sc I) /\
+    S 0%nat == reqS_n g rq /\ I 0%nat == reqI_n g rq.
+Proof.
+  intros WG W OK. pose proof (wf_req_noR g rq W) as NR. unfold SIS_super_compact_pairwise_from_graph.
+  assert (NB : (isSome (rq_rho rq) && isSome (rq_I rq))%bool = false).
+  { destruct (rq_I rq) eqn:E, (rq_rho rq) eqn:Er; try reflexivity. exfalso; eapply wf_req_not_both; eauto. }
+  rewrite NB, (req_eta rq NR), (get_Nk_ok g false rq WG W). cbn [rbind nk_Sk nk_Ik nk_Nk].
+  pose proof (vsum_req_Sk g false rq WG W) as ES. pose proof (vsum_req_Ik g false rq WG W) as EI.
+  destruct (rq_I rq) as [I0|] eqn:E.
+  - rewrite <- NR, (count_edge_types_ok g false rq I0 W E). cbn [rbind].
+    destruct (count_edge_types_st g (req_status rq)) as [[ss si] ii].
+    unfold SIS_super_compact_pairwise. do 3 eexists. split; [reflexivity|]. split; [look|]. split; [look|].
+    unfold comp, vnth. cbv beta. rewrite !OK. cbn [nth]. rewrite ES, EI. split; [ring|reflexivity].
+  - unfold SIS_super_compact_pairwise. do 3 eexists. split; [reflexivity|]. split; [look|]. split; [look|].
+    unfold comp, vnth. cbv beta. rewrite !OK. cbn [nth]. rewrite ES, EI. split; [ring|reflexivity].
+Qed.
+
+(* ... but on the rho path II(0) is rho * sum of degrees, not rho^2 * sum of degrees *)
+Lemma row0_SIS_scp_II_refuted :
+  exists g rq, wf_ugraph g = true /\ wf_req g false rq = true /\
+    exists out II, SIS_super_compact_pairwise_from_graph g rq true const_solver = Ok out /\
+      lookup nII out = Some (Sc II) /\ ~ II 0%nat == pII (req_pairs g rq) /\ II 0%nat == (1 # 4) * degsum g.
+Proof.
+  exists path3, (mkReq None None (Some (1 # 4))). split; [reflexivity|]. split; [reflexivity|].
+  do 2 eexists. split; [vm_compute; reflexivity|]. split; [vm_compute; reflexivity|].
+  split; vm_compute; [intros H; discriminate H|reflexivity].
+Qed.
+
+(* effective degree, SIR: initially recovered nodes are reported as susceptible *)
+Lemma row0_SIR_ed_refuted :
+  exists g rq, wf_ugraph g = true /\ wf_req g true rq = true /\
+    exists out S R, SIR_effective_degree_from_graph g rq false const_solver = Ok out /\
+      lookup nS out = Some (Sc S) /\ lookup nR out = Some (Sc R) /\
+      ~ S 0%nat == reqS_n g rq /\ ~ R 0%nat == reqR_n g rq /\ S 0%nat == 2 /\ reqS_n g rq == 1.
+Proof.
+  exists path3, (mkReq (Some [0%N]) (Some [2%N]) None). split; [reflexivity|]. split; [reflexivity|].
+  do 3 eexists. split; [vm_compute; reflexivity|]. split; [vm_compute; reflexivity|]. split; [vm_compute; reflexivity|].
+  repeat split; vm_compute; try reflexivity; intros H; discriminate H.
+Qed.
+
+(* heterogeneous pairwise: SIS crashes with full data, SIR exchanges SkSl and SkIl *)
+Lemma accepts_SIS_hetpw_full_refuted :
+  exists g rq, wf_ugraph g = true /\ wf_req g false rq = true /\
+    forall sv, SIS_heterogeneous_pairwise_from_graph g rq true sv = Err NameErr.
+Proof. exists path3, (mkReq (Some [0%N]) None None). repeat split. Qed.
+
+Lemma row0_SIR_hetpw_full_refuted :
+  exists g rq, wf_ugraph g = true /\ wf_req g true rq = true /\
+    exists kk out SkSl SkIl, get_NkNl_and_IC g rq = Ok kk /\
+      SIR_heterogeneous_pairwise_from_graph g rq true const_solver = Ok out /\
+      lookup nSkSl out = Some (Ma SkSl) /\ lookup nSkIl out = Some (Ma SkIl) /\
+      SkSl 0%nat <> kk_SkSl kk /\ SkSl 0%nat = kk_SkIl kk /\ SkIl 0%nat = kk_SkSl kk.
+Proof.
+  exists path3, (mkReq (Some [0%N]) None None). split; [reflexivity|]. split; [reflexivity|].
+  do 4 eexists. split; [vm_compute; reflexivity|]. split; [vm_compute; reflexivity|].
+  split; [vm_compute; reflexivity|]. split; [vm_compute; reflexivity|].
+  split; [vm_compute; intros H; discriminate H|]. split; vm_compute; reflexivity.
+Qed.
+
+(* ======================= conservation: structural cases ======================= *)
+(* whatever the integrator returns, the tuple is built by subtraction from N *)
+Lemma conserve_SIR_homogeneous_meanfield S0 I0 R0 sv t S I R :
+  SIR_homogeneous_meanfield S0 I0 R0 sv = [(nS, Sc S); (nI, Sc I); (nR, Sc R)] -> S t + I t + R t == S0 + I0 + R0.
+Proof. unfold SIR_homogeneous_meanfield. intros H. injection H as <- <- <-. ring. Qed.
+
+Lemma conserve_SIS_homogeneous_pairwise S0 I0 SI0 SS0 n full sv out S I t :
+  SIS_homogeneous_pairwise S0 I0 SI0 SS0 n full sv = Ok out ->
+  lookup nS out = Some (Sc S) -> lookup nI out = Some (Sc I) -> S t + I t == S0 + I0.
+Proof.
+  unfold SIS_homogeneous_pairwise. destruct (Qltb _ _); [discriminate|]. intros H. injection H as <-.
+  cbn [lookup app sname_eqb]. intros HS HI. injection HS as <-. injection HI as <-. ring.
+Qed.
+
+Lemma conserve_SIR_homogeneous_pairwise S0 I0 R0 SI0 SS0 n full sv out S I R t :
+  SIR_homogeneous_pairwise S0 I0 R0 SI0 SS0 n full sv = Ok out ->
+  lookup nS out = Some (Sc S) -> lookup nI out = Some (Sc I) -> lookup nR out = Some (Sc R) -> S t + I t + R t == S0 + I0 + R0.
+Proof.
+  unfold SIR_homogeneous_pairwise. destruct (Qltb _ _); [discriminate|]. intros H. injection H as <-.
+  cbn [lookup app sname_eqb]. intros HS HI HR. injection HS as <-. injection HI as <-. injection HR as <-. ring.
+Qed.
+
+Lemma conserve_SIR_compact_pairwise Sk0 I0 R0 SS0 SI0 sv S I R t :
+  SIR_compact_pairwise Sk0 I0 R0 SS0 SI0 false sv = [(nS, Sc S); (nI, Sc I); (nR, Sc R)] -> S t + I t + R t == I0 + R0 + vsum Sk0.
+Proof. unfold SIR_compact_pairwise. intros H. injection H as <- <- <-. ring. Qed.
+
+Lemma conserve_SIS_super_compact_pairwise S0 I0 SS0 SI0 II0 full sv S I t :
+  lookup nS (SIS_super_compact_pairwise S0 I0 SS0 SI0 II0 full sv) = Some (Sc S) ->
+  lookup nI (SIS_super_compact_pairwise S0 I0 SS0 SI0 II0 full sv) = Some (Sc I) -> S t + I t == S0 + I0.
+Proof. unfold SIS_super_compact_pairwise. cbn [lookup app sname_eqb]. intros HS HI. injection HS as <-. injection HI as <-. ring. Qed.
+
+Lemma conserve_SIR_super_compact_pairwise R0 SS0 SI0 N psihat full sv S I R t :
+  lookup nS (SIR_super_compact_pairwise R0 SS0 SI0 N psihat full sv) = Some (Sc S) ->
+  lookup nI (SIR_super_compact_pairwise R0 SS0 SI0 N psihat full sv) = Some (Sc I) ->
+  lookup nR (SIR_super_compact_pairwise R0 SS0 SI0 N psihat full sv) = Some (Sc R) -> S t + I t + R t == N.
+Proof. unfold SIR_super_compact_pairwise. cbn [lookup app sname_eqb]. intros HS HI HR. injection HS as <-. injection HI as <-. injection HR as <-. ring. Qed.
+
+Lemma conserve_SIR_effective_degree Ssi0 I0 R0 full sv S I R t :
+  lookup nS (SIR_effective_degree Ssi0 I0 R0 full sv) = Some (Sc S) ->
+  lookup nI (SIR_effective_degree Ssi0 I0 R0 full sv) = Some (Sc I) ->
+  lookup nR (SIR_effective_degree Ssi0 I0 R0 full sv) = Some (Sc R) -> S t + I t + R t == msum Ssi0 + I0 + R0.
+Proof. unfold SIR_effective_degree. cbn [lookup app sname_eqb]. intros HS HI HR. injection HS as <-. injection HI as <-. injection HR as <-. ring. Qed.
+
+Lemma conserve_SIR_compact_effective_degree Sk0 I0 R0 SI0 full sv S I R t :
+  lookup nS (SIR_compact_effective_degree Sk0 I0 R0 SI0 full sv) = Some (Sc S) ->
+  lookup nI (SIR_compact_effective_degree Sk0 I0 R0 SI0 full sv) = Some (Sc I) ->
+  lookup nR (SIR_compact_effective_degree Sk0 I0 R0 SI0 full sv) = Some (Sc R) -> S t + I t + R t == vsum Sk0 + I0 + R0.
+Proof. unfold SIR_compact_effective_degree. cbn [lookup app sname_eqb]. intros HS HI HR. injection HS as <-. injection HI as <-. injection HR as <-. ring. Qed.
+
+Lemma conserve_EBCM N psihat R0 full sv S I R t :
+  lookup nS (EBCM N psihat R0 full sv) = Some (Sc S) -> lookup nI (EBCM N psihat R0 full sv) = Some (Sc I) ->
+  lookup nR (EBCM N psihat R0 full sv) = Some (Sc R) -> S t + I t + R t == N.
+Proof. unfold EBCM. cbn [lookup app sname_eqb]. intros HS HI HR. injection HS as <-. injection HI as <-. injection HR as <-. ring. Qed.
